@@ -69,6 +69,7 @@ def check_module_spec(ctx, ms):
     expect_equal(s0, s1, "C02.synth.roundtrip", "%s synth round trip" % tname)
     iovariants.writers_agree(Synth(mod), data1, "C02")
     iovariants.loaders_agree(data1, s0, lambda o: snapshot.snap_module(o.module, in_project=False), "C02", ".sunsynth")
+    iovariants.clone_agrees(Synth(mod), s0, lambda o: snapshot.snap_module(o.module, in_project=False), "C02")
     # (b) clone
     c = mod.clone()
     if type(c) is not type(mod) or c is mod:
